@@ -150,6 +150,26 @@ let eblk_handler (args : string list) : string =
       Printf.sprintf "%s" (ZA.format "%016x" !h)
   | _ -> "?bad-EBLK"
 
+(* EIT <arr|map> <hint> <u16,…> [=<expected hex>] : encode::ArrayIter / MapIter under a size hint *)
+let eit_handler (args : string list) : string =
+  match args with
+  | kind :: hint :: vals :: rest ->
+      let vs = if vals = "." then [] else List.map n_of_string (String.split_on_char ',' vals) in
+      let is_map = (kind = "map") in
+      let vs = if is_map && List.length vs mod 2 = 1 then List.rev (List.tl (List.rev vs)) else vs in
+      let count = if is_map then List.length vs / 2 else List.length vs in
+      let (low, up) = (match hint with
+        | "exact" -> (count, Some count) | "unbounded" -> (0, None) | "lower" -> (count / 2, None) | _ -> (0, Some count)) in
+      (* a `lower` chain of an empty exact part and an unbounded part reports (0, None); filter keeps the upper bound *)
+      let items = List.map enc_u16 vs in
+      let nlow = n_of_int low and nup = (match up with Some u -> Some (n_of_int u) | None -> None) in
+      let cs = if is_map then enc_map_iter nlow nup items else enc_array_iter nlow nup items in
+      let main = Printf.sprintf "%s;hint=%d,%s" (hex_of_chunks cs) low (match up with Some u -> string_of_int u | None -> "none") in
+      (match rest with
+       | e :: _ when String.length e > 0 && e.[0] = '=' -> main ^ "\tS=" ^ (String.sub e 1 (String.length e - 1)) ^ ";*"
+       | _ -> main)
+  | _ -> "?bad-EIT"
+
 (* IC <z> : data::Int conversions *)
 let ic_handler (args : string list) : string =
   match args with
@@ -178,6 +198,7 @@ let ic_handler (args : string list) : string =
 
 let () =
   register "IC" ic_handler;
+  register "EIT" eit_handler;
   register "EBLK" eblk_handler;
   register "ES" es_handler;
   register "E" e_handler;
